@@ -305,7 +305,19 @@ func verifyFunc(prog *ssa.Program, fn *ssa.Function, ctr *Contract, all map[stri
 		for _, c := range cls {
 			found := false
 			for _, o := range e.obls {
-				if o.Kind == "at" && strings.HasSuffix(o.Group, ":"+c.Label) && strings.Contains(o.Group, "/at@") {
+				// the group is <fn>/at@<callee short name>:<label>; the clause must have
+				// attached under its own callee, not merely share a label with one that did
+				cn := callee
+				if i := strings.Index(cn, "#"); i >= 0 {
+					cn = cn[:i]
+				}
+				if i := strings.LastIndex(cn, "."); i >= 0 && !strings.HasPrefix(cn, "(") {
+					cn = cn[i+1:]
+				}
+				if i := strings.LastIndex(cn, ")."); i >= 0 {
+					cn = cn[i+2:]
+				}
+				if o.Kind == "at" && strings.HasSuffix(o.Group, ":"+c.Label) && strings.Contains(o.Group, "/at@"+cn+":") {
 					found = true
 				}
 			}
